@@ -43,7 +43,7 @@ def _split(rng, n, parts):
 
 def gen_multisignal(rng, tier):
     cases = []
-    for _ in range(n_cases(tier, 300, 5000)):
+    for _ in range(n_cases(tier, 600, 5000)):
         k = rng.choice([1, 2, 2, 3, 3])
         n = rng.randrange(1, 7 if tier == "quick" else 12)
         nw = rng.choice([1, 2, 2, 3])
